@@ -67,7 +67,7 @@ Proof.
   - inversion H; subst. apply int_equals_math; assumption.
   - destruct (d_is_nan d1 || d_is_nan d2) eqn:En.
     + inversion H; subst. apply deq_nan. exact En.
-    + discriminate H.
+    + inversion H; subst. reflexivity.
   - destruct s1, s2; try discriminate H; inversion H; subst; reflexivity.
   - inversion H; subst. destruct (bytes_eqb m1 m2) eqn:E.
     + apply bytes_eqb_len in E. rewrite E, Z.eqb_refl. reflexivity.
